@@ -359,6 +359,8 @@ pub struct Hist {
     pub flushes: Vec<FlushReq>,
     pub probes: Vec<Probe>,
     pub panics: Vec<PanicRec>,
+    /// (vthread, t, what): collector work observed on a program vthread, inside a tracing call
+    pub host_cycles: Vec<(usize, T, &'static str)>,
     pub closures: Vec<ClosureCall>,
     pub hooks: Vec<HookEv>,
     pub stats: Vec<StatSample>,
